@@ -23,7 +23,13 @@ IMPORTS = {
              'affected encodings is wrong'),
             ('C16', None, 'indentation is removed per line of split_lines: content of well-formed files is altered')],
     'C04': [('C06', ('C06-R4',), 'serialising edits the options of the tree (an encoding declaration disappears), so the sections written '
-             'next are encoded / declared with a different scope')],
+             'next are encoded / declared with a different scope'),
+            ('C02', ('C02-R10',), 'an encoding the caller supplied must be declared in the header it opens: a writer that leaves it out '
+             '(because it equals some other section\'s) makes the reader inherit a different encoding than the one used'),
+            ('C05', ('C05-R8',), 'the object model must hand every stored encoding option to the streaming writer: dropping one that equals '
+             'the file\'s main encoding makes a section nested in a differently encoded container inherit the wrong one'),
+            ('C09', ('C09-R2',), 'a container call rejected after the scope stack was already popped / pushed leaves the writer with '
+             'another encoding in effect than the sections it has open')],
     'C05': [('C15', None, 'the written section and its re-parse derive newline / BOM from these tables: for the affected encodings the '
              'parsed tree differs from the written one'),
             ('C16', None, 'indentation is added and removed per line of split_lines: content differs after the cycle'),
